@@ -743,6 +743,48 @@ func (g *gen) messages(n int) {
 	}
 }
 
+// forkSession: validateProve / verifyBlockVRF under the network's own fork schedule (no override of
+// Proposal025Block): heights just below, at and above Proposal025Block + reward blocks.
+func (g *gen) forkSession(n int) {
+	r := g.r
+	thr := g.thr[0]
+	g.out.Kinds[fmt.Sprintf("(threshold=%d)", thr)] = 1
+	mk := func(val *big.Int) []byte {
+		p := make([]byte, 80)
+		vb := val.Bytes()
+		copy(p[32-len(vb):32], vb)
+		copy(p[32:], r.Bytes(48))
+		return p
+	}
+	heights := []uint64{0, 1, thr - 1, thr, thr + 1, thr + 2, 2 * thr}
+	for _, t := range []uint64{1, 3, 5, 6, 10, 100, 12345, 1 << 30, 1<<53 + 1} {
+		for _, wm := range []uint64{0, 1, 2, 3, t, t + 1} {
+			for _, h := range heights {
+				for _, v := range []*big.Int{big.NewInt(0), new(big.Int).Rsh(max256, 4), new(big.Int).Rsh(max256, 1), new(big.Int).Sub(max256, big.NewInt(1)), max256} {
+					if r.Chance(1, 2) {
+						g.do(fmt.Sprintf("qn %d %s %d %d %d", thr, hx.Hex(mk(v)), h, wm, t))
+					}
+				}
+			}
+		}
+	}
+	for i := 0; i < n; i++ {
+		pk, sk := g.key()
+		m := r.Bytes(32)
+		pi, err := ed25519.ECVRFProve(sk, m)
+		if err != nil {
+			continue
+		}
+		t := uint64(r.Pick(1, 3, 5, 10, 100))
+		wm := uint64(r.Pick(0, 1, 2, 3))
+		h := heights[1+r.Intn(len(heights)-1)]
+		var qn uint64
+		hx.Guard(func() string { _, qn = logical.VerifC16ValidateProve(pi, h, wm, t); return "" })
+		g.do(fmt.Sprintf("qn %d %s %d %d %d", thr, hx.Hex(pi), h, wm, t))
+		g.do(fmt.Sprintf("vbv %d %s %s %s %d %d %d %d %d", thr, hx.Hex(pk), hx.Hex(new(big.Int).SetBytes(pi).Bytes()), hx.Hex(m), h, wm, t, 9+qn, 9))
+	}
+}
+
 func (g *gen) headers(n int) {
 	r := g.r
 	for i := 0; i < n; i++ {
@@ -779,7 +821,11 @@ func (g *gen) headers(n int) {
 
 func main() {
 	a := hx.Args()
-	hxnode.BootLight("dev")
+	env := a["env"]
+	if env == "" {
+		env = "dev"
+	}
+	hxnode.BootLight(env) // dev | mainnet | robin: selects common.LocalChainConfig (fork heights)
 	logical.InitConsensus()
 	logical.VerifC16InitLoggers()
 	mode := a["mode"]
@@ -813,6 +859,13 @@ func main() {
 	scale := 1
 	if a["tier"] == "thorough" {
 		scale = 8
+	}
+	if a["part"] == "fork" {
+		// fork-configuration session: the real Proposal025Block of this network, heights on both sides
+		g.thr = []uint64{threshold()}
+		g.forkSession(150 * scale)
+		fmt.Println("STATS " + out.StatsJSON())
+		return
 	}
 	g.corpus()
 	g.primitives(40 * scale)
